@@ -238,6 +238,9 @@ def _str_escape(s: str) -> str:
             c = r'\v'
         elif c == "\\": 
             c = r'\\'
+        elif c == '\x00':
+            # docutils uses null bytes internally and removes them from the text. 
+            c = r'\x00'
         return c
 
     # Escape it
